@@ -60,6 +60,9 @@ type G struct {
 	ext     []extNft // external NFTs recorded
 	prev    map[int]*commit
 	funded  map[string]bool
+	win     uint64 // slash window
+	maxMiss uint64
+	frac    string
 }
 
 type extNft struct {
@@ -124,13 +127,18 @@ func (g *G) setup() {
 			maxMiss = 1
 		}
 		thr := rng.Pick(r, []string{"0.5", "0.5", "0.500000000000000001", "0.67", "0.6", "1"})
-		g.emit("setoparams %d %s %s %d %d", g.vp, thr, rng.Pick(r, []string{"0.01", "0", "0.5", "1"}), w, maxMiss)
+		g.frac = rng.Pick(r, []string{"0.01", "0", "0.5", "1"})
+		g.win, g.maxMiss = w, maxMiss
+		g.emit("setoparams %d %s %s %d %d", g.vp, thr, g.frac, w, maxMiss)
 	} else {
 		// default params: period 10 — keep but shrink the window so it can be observed
 		g.emit("setoparams 10 0.5 0.01 20 3")
+		g.win, g.maxMiss, g.frac = 20, 3, "0.01"
 	}
 	// supported chains
-	switch r.N(4) {
+	switch r.N(5) {
+	case 4:
+		g.chains = []string{"1", world.ThisChain} // the chain's own id listed as a supported external chain
 	case 0:
 		g.chains = []string{"1"}
 	case 1:
@@ -253,6 +261,10 @@ func (g *G) step() {
 	ws := []int{p.Settle, p.Admin, p.Oracle, p.Malformed, 6}
 	switch r.Weighted(ws) {
 	case 0:
+		if p.MultiTenant && r.P(1, 25) {
+			g.fillScript()
+			return
+		}
 		g.settleOp()
 	case 1:
 		g.adminOp()
@@ -539,6 +551,10 @@ func (g *G) oracleOp() {
 		g.roundScript()
 		return
 	}
+	if r.P(1, 30) {
+		g.tieScript()
+		return
+	}
 	switch r.N(12) {
 	case 0, 1, 2, 3, 4:
 		// prevote (in or out of window), fresh commitment
@@ -585,6 +601,118 @@ func (g *G) oracleOp() {
 	}
 }
 
+// fillScript plays the cut-off scenario of the oracle fill across two tenants: the higher tenant id holds a record from before the
+// round, the lower tenant id records a different NFT in the first block of the round (and the higher one records the old NFT again);
+// every validator then reports an owner for all of them. Only the record from before the round may be filled.
+func (g *G) fillScript() {
+	r := g.r
+	if len(g.tenants) < 2 {
+		return
+	}
+	var ext []string
+	for _, c := range g.chains {
+		if c != world.ThisChain {
+			ext = append(ext, c)
+		}
+	}
+	if len(ext) == 0 {
+		return
+	}
+	chain := rng.Pick(r, ext)
+	lo, hi := g.tenants[0], g.tenants[len(g.tenants)-1]
+	if lo.method != "native" || hi.method != "native" {
+		return
+	}
+	cY, cX := contracts[0], contracts[1]
+	tokY, tokX := tokens[(hi.id-1)%len(tokens)], tokens[(lo.id+1)%len(tokens)]
+	for g.inPrevote() && uint64(g.height)%(2*g.vp) == 0 {
+		g.block() // not in the first block of a round: the old record must predate the round
+	}
+	rec := func(t *tenant, c, tok string) {
+		req := fmt.Sprintf("f%d", t.nreq)
+		t.nreq++
+		g.emit("record %s %d %s %d %s %s %s %s", t.admins[0], t.id, e(req), 1+r.N(5), e(t.denom), e(chain), e(c), e(tok))
+		t.pending = append(t.pending, req)
+	}
+	rec(hi, cY, tokY)
+	for uint64(g.height)%(2*g.vp) != 0 {
+		g.block()
+	}
+	rec(lo, cX, tokX)
+	rec(hi, cY, tokY)
+	rs := g.roundStart()
+	owner := ownerStrs[r.N(3)]
+	vd := "O:" + e(g.entry(extNft{chain, cY, tokY}, owner)) + "," + e(g.entry(extNft{chain, cX, tokX}, owner))
+	for v := 0; v < world.NVal; v++ {
+		g.emit("prevote o%d v%d %s %d", v, v, e(VoteHash("fs", vd)), rs)
+	}
+	for g.inPrevote() {
+		g.block()
+	}
+	for v := 0; v < world.NVal; v++ {
+		g.emit("vote o%d v%d %s %d %s", v, v, e("fs"), rs, vd)
+	}
+	for !g.inPrevote() {
+		g.block()
+	}
+	g.block()
+}
+
+// tieScript plays a tally in which two owners of one NFT both reach the threshold exactly (four equal validators, threshold one half,
+// two votes each): no owner may be accepted, whichever the tally meets first.
+func (g *G) tieScript() {
+	r := g.r
+	var ext []string
+	for _, c := range g.chains {
+		if c != world.ThisChain {
+			ext = append(ext, c)
+		}
+	}
+	if len(ext) == 0 || len(g.tenants) == 0 {
+		return
+	}
+	t := g.tenants[0]
+	chain := rng.Pick(r, ext)
+	c, tok := contracts[r.N(2)], rng.Pick(r, tokens)
+	g.emit("setoparams %d 0.5 %s %d %d", g.vp, g.frac, g.win, g.maxMiss)
+	for v := 0; v < 4; v++ {
+		g.emit("setval v%d 1 1 0 -", v)
+	}
+	g.emit("setval v4 1 0 0 -")
+	if uint64(g.height)%(2*g.vp) == 0 {
+		g.block()
+	}
+	req := fmt.Sprintf("t%d", t.nreq)
+	t.nreq++
+	g.emit("record %s %d %s %d %s %s %s %s", t.admins[0], t.id, e(req), 1+r.N(5), e(t.denom), e(chain), e(c), e(tok))
+	t.pending = append(t.pending, req)
+	for uint64(g.height)%(2*g.vp) != 0 {
+		g.block()
+	}
+	rs := g.roundStart()
+	vdA := "O:" + e(g.entry(extNft{chain, c, tok}, ownerStrs[0]))
+	vdB := "O:" + e(g.entry(extNft{chain, c, tok}, ownerStrs[1]))
+	pick := func(v int) string {
+		if v%2 == 0 {
+			return vdA
+		}
+		return vdB
+	}
+	for v := 0; v < 4; v++ {
+		g.emit("prevote o%d v%d %s %d", v, v, e(VoteHash("tie", pick(v))), rs)
+	}
+	for g.inPrevote() {
+		g.block()
+	}
+	for v := 0; v < 4; v++ {
+		g.emit("vote o%d v%d %s %d %s", v, v, e("tie"), rs, pick(v))
+	}
+	for !g.inPrevote() {
+		g.block()
+	}
+	g.block()
+}
+
 // roundScript plays one complete, well-timed commit-reveal round for several validators.
 func (g *G) roundScript() {
 	r := g.r
@@ -603,6 +731,11 @@ func (g *G) roundScript() {
 			vd := g.voteData(v)
 			g.emit("prevote o%d v%d %s %d", v, v, e(VoteHash(salt, vd)), rs)
 			cms = append(cms, cm{v, salt, vd})
+			if r.P(1, 6) {
+				// the same validator under the upper-case bech32 spelling of its operator address: one voice, not two
+				g.emit("prevote o%d V%d %s %d", v, v, e(VoteHash(salt, vd)), rs)
+				cms = append(cms, cm{-v - 1, salt, vd})
+			}
 			if r.P(1, 6) && g.inPrevote() && uint64(g.height+1)%(2*g.vp) < g.vp {
 				g.block()
 			}
@@ -612,6 +745,10 @@ func (g *G) roundScript() {
 		g.block()
 	}
 	for _, c := range cms {
+		if c.v < 0 {
+			g.emit("vote o%d V%d %s %d %s", -c.v-1, -c.v-1, e(c.salt), rs, c.vd)
+			continue
+		}
 		if r.P(9, 10) {
 			g.emit("vote o%d v%d %s %d %s", c.v, c.v, e(c.salt), rs, c.vd)
 		}
@@ -644,8 +781,8 @@ func (g *G) malformedOp() {
 			g.ext = append(g.ext, extNft{"1", contracts[0], tokens[1]})
 		}
 	case 2:
-		amt := rng.Pick(r, []string{"10000000000000000000", "9223372036854775808", "-3", "0", "nil"})
-		g.emit("fund %s 20000000000000000000 %s", admin, e(t.denom))
+		amt := rng.Pick(r, []string{"10000000000000000000", "9223372036854775808", "18446744073709551616", "18446744073709551615", "1180591620717411303424", "-3", "0", "nil"})
+		g.emit("fund %s 2000000000000000000000 %s", admin, e(t.denom))
 		g.emit("deposit %s %d %s %s", admin, t.id, amt, e(t.denom))
 	case 3, 4, 5:
 		// malformed vote entries: prevote then vote
